@@ -1,6 +1,7 @@
 import CpProofs.C20Monitor
 import CpProofs.C20Block
 import CpProofs.C20Threads
+import CpProofs.C20Admit
 /-!
   C20 — background workers obey stop/graceful under every thread interleaving.
   Part M (this file): `BackgroundTask` / `Monitor`.  Parts B (`Bus.block/wait`) and T
@@ -294,6 +295,47 @@ theorem C20_cancelled_worker_terminates (p : Params) (calls : List Call) (c : Cf
   have g8 := k1.g8 hp i
   cases hpc : ((run p c sched).ws i).pc <;> simp_all [wdist]
 
+
+/-! ### trace inclusion: what an admitted implementation trace inherits
+
+  The driver answers `ok` for a recorded trace of the real threads exactly when
+  `C20Admit.admitsInit step enabled obsStr keyStr FUEL init o0 tr = true`.  By construction of the
+  subset simulation such a trace is a sampling of a genuine model run: there are model states
+  `cs`, one per observed turn, each reached from the previous one by steps of the observed thread
+  only, whose observations are the recorded ones — so every invariant of ALL model runs holds at
+  every observed point of the real execution, whatever the line structure of the source. -/
+
+section Admit
+open CpModel.C20Admit
+
+/-- generic form (any transition system, any observation function, any duplicate key) -/
+theorem C20_admitted_trace_is_model_run {σ τ : Type} (step : σ → τ → σ) (en : σ → τ → Bool)
+    (obs : σ → String) (key : σ → String) (fuel : Nat) (c0 : σ) (o0 : String) (tr : List (τ × String))
+    (h : admitsInit step en obs key fuel c0 o0 tr = true) :
+    obs c0 = o0 ∧ ∃ cs : List σ, Follows step obs c0 tr cs ∧ cs.map obs = tr.map (·.2) ∧
+      ∃ sched : List τ, cs.getLast? = (if tr.isEmpty then none else some (sched.foldl step c0)) := by
+  obtain ⟨h0, cs, hf⟩ := C20Admit.admitsInit_sound step en obs key fuel c0 o0 tr h
+  refine ⟨h0, cs, hf, ?_, C20Admit.follows_sched hf⟩
+  exact (C20Admit.follows_inv (P := fun _ => True) (fun _ _ _ => trivial) trivial hf).2
+
+/-- M (repaired protocol): at every observed point of an admitted trace the monitor state is a
+    reachable model state with the recorded observation, hence at most one armed worker, at most one
+    more invocation after `stop()` returned, exactly one armed worker after start/graceful, no crash -/
+theorem C20_admitted_M_safe (p : Params) (calls : List Call) (o0 : String)
+    (tr : List (Tid × String)) (hp : p.mode = .fixed)
+    (h : admitsInit (step p) enabled obsStr keyStr FUEL (init calls) o0 tr = true) :
+    ∃ cs : List Cfg, cs.map obsStr = tr.map (·.2) ∧
+      ∀ c ∈ cs, ReachAll p calls c ∧ OneWorker p c ∧ AtMostOnce c ∧ GracefulLeavesOne p c ∧
+        c.cpc ≠ .crashed := by
+  obtain ⟨_, cs, hf⟩ := C20Admit.admitsInit_sound _ _ _ _ _ _ _ _ h
+  obtain ⟨h1, h2⟩ := C20Admit.follows_inv (P := ReachAll p calls) (fun _ t hc => .step t hc) .init hf
+  refine ⟨cs, h2, fun c hc => ?_⟩
+  have hr := h1 c hc
+  have hi := inv_of_reach (reachAll_fixed hp hr)
+  exact ⟨hr, oneWorker_of_inv hi, atMostOnce_of_inv hi, gracefulLeavesOne_of_inv hi,
+    C20_controller_never_crashes p calls c (reachAll_fixed hp hr)⟩
+end Admit
+
 /-! ### parts B and T restated under the property's namespace -/
 section B
 open CpModel.BlockWait
@@ -320,6 +362,24 @@ theorem C20_execv_iff_restart (s0 : St) (calls : List BCall) (c : BlockWait.Cfg)
     (hl : ExitLast calls = true) (h : C20B.Reach s0 calls c) (hm : c.mpc = .done) :
     c.execvDone = true ↔ BCall.restart ∈ calls :=
   C20B.C20_execv_iff_restart s0 calls c hs hl h hm
+
+/-- B: at every observed point of an admitted trace: `block()` has left its loop only after EXITING
+    was written (and it still holds), and when it has returned execv was performed iff `restart()`
+    was among the calls -/
+theorem C20_admitted_B_safe (calls : List BCall) (o0 : String) (tr : List (BlockWait.Tid × String))
+    (hl : ExitLast calls = true)
+    (h : CpModel.C20Admit.admitsInit BlockWait.step BlockWait.enabled (BlockWait.obsStr calls.length)
+      BlockWait.keyStr CpModel.C20Admit.FUEL (BlockWait.init .started calls) o0 tr = true) :
+    ∃ cs : List BlockWait.Cfg, cs.map (BlockWait.obsStr calls.length) = tr.map (·.2) ∧
+      ∀ c ∈ cs, C20B.Reach .started calls c ∧
+        ((c.mpc = .tail ∨ c.mpc = .done) → c.exited = true ∧ c.state = .exiting) ∧
+        (c.mpc = .done → (c.execvDone = true ↔ BCall.restart ∈ calls)) := by
+  obtain ⟨_, cs, hf⟩ := C20Admit.admitsInit_sound _ _ _ _ _ _ _ _ h
+  obtain ⟨h1, h2⟩ := C20Admit.follows_inv (P := C20B.Reach .started calls) (fun _ t hc => .step t hc) .init hf
+  refine ⟨cs, h2, fun c hc => ?_⟩
+  have hr := h1 c hc
+  exact ⟨hr, C20B.C20_block_only_after_exiting .started calls c (by decide) hl hr,
+    C20B.C20_execv_iff_restart .started calls c (by decide) hl hr⟩
 end B
 
 section T
@@ -340,6 +400,23 @@ theorem C20_thread_notifications_partial (scripts : List (List ROp)) (c : Thread
 
 theorem C20_thread_notifications_asIs_false : ¬ C20T.C20_thread_notifications_full .asIs :=
   C20T.C20_thread_notifications_asIs_false
+
+/-- T (repaired `stop()`): at every observed point of an admitted trace the conservation law of
+    start_thread/stop_thread holds for every thread and `stop()` has not died -/
+theorem C20_admitted_T_safe (scripts : List (List ROp)) (nstops : Nat) (o0 : String)
+    (tr : List (ThreadMgr.Tid × String))
+    (h : CpModel.C20Admit.admitsInit (ThreadMgr.step .fixed) ThreadMgr.enabled
+      (ThreadMgr.obsStr (scripts.map List.length) nstops) ThreadMgr.keyStr CpModel.C20Admit.FUEL
+      (ThreadMgr.init .fixed scripts nstops) o0 tr = true) :
+    ∃ cs : List ThreadMgr.Cfg,
+      cs.map (ThreadMgr.obsStr (scripts.map List.length) nstops) = tr.map (·.2) ∧
+      ∀ c ∈ cs, C20T.Reach .fixed scripts nstops c ∧ (∀ t, C20T.Bal c t) ∧ c.spc ≠ .rterr := by
+  obtain ⟨_, cs, hf⟩ := C20Admit.admitsInit_sound _ _ _ _ _ _ _ _ h
+  obtain ⟨h1, h2⟩ := C20Admit.follows_inv (P := C20T.Reach .fixed scripts nstops)
+    (fun _ t hc => .step t hc) .init hf
+  refine ⟨cs, h2, fun c hc => ?_⟩
+  have hr := h1 c hc
+  exact ⟨hr, C20T.C20_thread_notifications scripts nstops c hr⟩
 end T
 
 end CpProofs.C20
